@@ -452,14 +452,16 @@ func Yield(site string) {
 	}
 }
 
-// Y yields and returns f: `atomic.AddInt32(p, 1)` becomes `simrt.Y(site, atomic.AddInt32)(p, 1)`.
+// YA yields and returns v: `atomic.AddInt32(p, 1)` becomes
+// `atomic.AddInt32(simrt.YA(site, p), 1)` and `x.v.Store(b)` becomes
+// `simrt.YA(site, &x.v).Store(b)`; the atomic operation stays a direct call.
 //
 //go:norace
-func Y[F any](site string, f F) F {
+func YA[T any](site string, v T) T {
 	if s := active(); s != nil {
 		s.yield(site, false)
 	}
-	return f
+	return v
 }
 
 // Lock replaces x.Lock() / x.RLock(): a scheduling point, then TryLock with a
